@@ -13,7 +13,7 @@ PROP = {'counts': {'quick': 2, 'thorough': 20},
          'extracted table functions (BlockView.known_blocked_path / known_inversion) against gen/Blocking.v, '
          'regenerated from the source by gofacts on every run; oracle = every operation within the bound, the '
          'stalled/cut peer leaves GetNodeInfo within timeout + 2 intervals + 3 s, every healthy replica '
-         'converges within 40 s; non-trivial = more than 1 MB written or an operation blocked; distinct by '
+         'converges within 40 s; non-trivial = more than 256 KB written (beyond the flow-control windows) or an operation blocked; distinct by '
          'case text',
  'assumptions': ['the static table is syntactic (gofacts/blocking.go): block-structured lock sets, one lock per '
                  '(type, field), interface calls resolved to every implementing type of pkg/wal, '
